@@ -240,7 +240,7 @@ fn decode(c: &CodeObj) -> R<String> {
     Ok(out)
 }
 
-fn run_case(id: &str, src: &str) {
+fn run_case(id: &str, src: &str) -> String {
     let s = src.to_string();
     let res = catch(move || -> R<String> {
         let mut cfg = ErgConfig::default();
@@ -279,7 +279,7 @@ fn run_case(id: &str, src: &str) {
         Ok(Err(e)) => format!("out-of-model({})", e),
         Err(e) => format!("crash({})", quote(&e)),
     };
-    println!("{}\t(src {})\t{}", id, quote(src), out);
+    format!("{}\t(src {})\t{}", id, quote(src), out)
 }
 
 fn main() {
@@ -287,12 +287,34 @@ fn main() {
     let a = parse_args();
     match a.mode.as_str() {
         "replay" => {
-            for (id, input) in stdin_cases() {
-                let inner = input.trim().strip_prefix("(src ").and_then(|s| s.strip_suffix(")")).unwrap_or("");
-                match unquote(inner) {
-                    Some(p) => run_case(&id, &p),
-                    None => println!("{}\t{}\tbad-input", id, input),
-                }
+            // the cases are independent: run them on 8 worker threads (each case builds its own compiler), print in input order
+            let cases = stdin_cases();
+            let n = cases.len();
+            let cases = std::sync::Arc::new(cases);
+            let next = std::sync::Arc::new(std::sync::atomic::AtomicUsize::new(0));
+            let results = std::sync::Arc::new(std::sync::Mutex::new(vec![String::new(); n]));
+            let mut handles = vec![];
+            for _ in 0..8 {
+                let (cases, next, results) = (cases.clone(), next.clone(), results.clone());
+                handles.push(std::thread::Builder::new().stack_size(64 * 1024 * 1024).spawn(move || loop {
+                    let i = next.fetch_add(1, std::sync::atomic::Ordering::SeqCst);
+                    if i >= cases.len() {
+                        break;
+                    }
+                    let (id, input) = &cases[i];
+                    let inner = input.trim().strip_prefix("(src ").and_then(|s| s.strip_suffix(")")).unwrap_or("");
+                    let line = match unquote(inner) {
+                        Some(p) => run_case(id, &p),
+                        None => format!("{}\t{}\tbad-input", id, input),
+                    };
+                    results.lock().unwrap()[i] = line;
+                }).unwrap());
+            }
+            for h in handles {
+                let _ = h.join();
+            }
+            for l in results.lock().unwrap().iter() {
+                println!("{}", l);
             }
         }
         _ => {
